@@ -597,14 +597,14 @@ def _top_mems(n):
     return [x for x in ex.walk(n) if x.get("k") == "mem" and id(x) not in bases]
 
 
-def check_sizekey(ck, prog):
+def check_sizekey(ck, prog, rule="C10-SIZEKEY", files=None, floor=6):
     """A buffer member P allocated with a size taken from a member M (`thr->in = lzma_alloc(coder->block_size)`) is used
     later with M as its bound.  Whenever M is stored to while P may be kept, P has to be re-established: on every path
     to the store the buffer was released (a call that frees P), or is known to be NULL, or the store is behind the
     equality test `M == new value`; or on every path from the store to the return P is freed / re-allocated, or an
     `old == M` test (old sampled from M before the store) guards keeping it.  Otherwise a re-initialisation with a larger
     size keeps the smaller buffer and the next copy bounded by M overflows it."""
-    ck.rule("C10-SIZEKEY", "a member that gives the allocated size of a kept buffer changes only together with the buffer")
+    ck.rule(rule, "a member that gives the allocated size of a kept buffer changes only together with the buffer")
     cg = common.callgraph(prog)
     fns = [f for f in prog.all_functions("liblzma") if f.blocks]
     # pairs
@@ -652,6 +652,8 @@ def check_sizekey(ck, prog):
         FR = freeing(P)
         holders = {(rn, fd_["n"]) for rn, rec in prog.records.items() for fd_ in rec["fields"] if fd_.get("prec") == P[0]}
         for (f, b, i, l, r, op, node) in stores:
+            if files is not None and f.file.rsplit("/", 1)[-1] not in files:
+                continue
             n += 1
             ck.saw_function(f)
             def p_is(x):
@@ -751,7 +753,7 @@ def check_sizekey(ck, prog):
                 post_open = search(starts, f.exit)
             exc = SIZEKEY_EXCEPT.get((P[1], M[1], f.name))
             ok = exc is not None or not pre_open or not post_open
-            ck.ob("C10-SIZEKEY", "%s:%s:%s" % (f.name, P[1], M[1]), ok, common.where(f, node),
+            ck.ob(rule, "%s:%s:%s" % (f.name, P[1], M[1]), ok, common.where(f, node),
                   ("%s: `%s` changes only %s" % (f.name, ex.show(node)[:60],
                                                  "after the buffer was released / behind an equality test" if not pre_open
                                                  else "followed by a release, re-allocation or old-value test of the buffer")
@@ -761,7 +763,7 @@ def check_sizekey(ck, prog):
                   "old size is then used with the new bound (overflow when the size grows)" % (
                       f.name, ex.show(node)[:70], ex.line(node), P[1], sites[0][0].name, ex.show(sites[0][2])[:70]),
                   key="SIZEKEY:%s:%s:%s" % (f.name, P[1], M[1]))
-    ck.floor("C10-SIZEKEY", 6)
+    ck.floor(rule, floor)
 
 
 # (function, file, producer call, releasing/transferring calls, which exits must be covered, why)
